@@ -185,7 +185,22 @@ def rule3_publish(ctx, views):
             ctx.ob('C02.3', 'myth_queue_trypass: failure only without inserting', not any(reaches_point(f, st, anchor) for st in ins_st),
                    'zero is returned only on paths that did not insert (otherwise the caller retries and the thread is queued twice)',
                    loc=anchor.loc)
-    ctx.floor('C02.3', 10)
+    # ... and it inserts exactly when the slot below base exists: the insertion is confined to base > 0 (the store goes to ptr[base-1]),
+    # and with the lock obtained a queue that has room is not refused (the callers of trypass retry until someone accepts the thread)
+    for st in ins_st:
+        bl = [l for l in f.order if l.op == 'load' and f.field(l) == BASE]
+        room = False
+        for ic in f.order:
+            if ic.op != 'icmp' or const_int(ic.ops[1]) != 0 or not any(f.sources(ic.ops[0]) == f.sources(l.id) for l in bl):
+                continue
+            for c_, p_ in lib.cond_chain(f, ic.id):
+                # established: base != 0 (or base > 0)
+                if (ic.pred == 'eq' and f.on_edge(c_, not p_, st)) or (ic.pred in ('ne', 'sgt', 'ugt') and f.on_edge(c_, p_, st)):
+                    room = True
+        ctx.ob('C02.3', 'myth_queue_trypass: inserts only where base > 0 was established', room,
+               'the thread is stored at ptr[base - 1]: with base == 0 that is before the array, with the test inverted every '
+               'queue that has room is refused and the hand-over at myth_fini never finds a taker', loc=st.loc)
+    ctx.floor('C02.3', 11)
 
 
 def rule4_rollback(ctx, views):
@@ -659,6 +674,8 @@ WSQ = 'src/myth_wsqueue_func.h'
 NAT = 'src/myth_if_native.c'
 SCHED = 'src/myth_sched_func.h'
 MUTANTS = [
+    {'name': 'trypass refuses every queue that has room (sweep M0471, passes the suite)', 'expect': 'C02.3',
+     'edits': [(WSQ, "  if (q->base == 0){\n    ret = 0;\n  }\n  else{\n    int b;", "  if (q->base != 0){\n    ret = 0;\n  }\n  else{\n    int b;")]},
     {'name': 'yield re-queues the yielder at the head (seed3 C02/m1)', 'expect': 'C02.12',
      'edits': [('src/myth_sched_func.h', "  myth_queue_put(&env->runnable_q, this_thread);\n  env->this_thread = next_thread;", "  myth_queue_push(&env->runnable_q, this_thread);\n  env->this_thread = next_thread;")]},
     {'name': 'wsapi push drops the thread (sweep M0661)', 'expect': 'C02.10',
